@@ -92,7 +92,7 @@ fn c18_listing_vs_query_reexport() -> (bool, String) {
     )
 }
 
-/// exhaustive: every sequence of up to 4 operations (create / delete / import) over the module names A, B, C, MAIN:
+/// exhaustive: every sequence of up to 4 (thorough tier: 5) operations (create / delete / import) over the module names A, B, C, MAIN:
 /// declared imports acyclic after every step, refused import changes nothing, is_rule_visible answers for every existing module
 fn c18_exhaustive_short_sequences() -> (bool, String) {
     #[derive(Clone, Copy, Debug)]
@@ -111,6 +111,7 @@ fn c18_exhaustive_short_sequences() -> (bool, String) {
             ops.push(Op::Import(a, b));
         }
     }
+    let max_len = crate::bound(4, 5);
     let mut tried = 0u64;
     let mut stack: Vec<Vec<Op>> = vec![vec![]];
     while let Some(seq) = stack.pop() {
@@ -142,7 +143,7 @@ fn c18_exhaustive_short_sequences() -> (bool, String) {
             }
         }
         tried += 1;
-        if seq.len() < 4 {
+        if seq.len() < max_len {
             for op in &ops {
                 let mut s = seq.clone();
                 s.push(*op);
@@ -150,7 +151,7 @@ fn c18_exhaustive_short_sequences() -> (bool, String) {
             }
         }
     }
-    (false, format!("{} sequences of length <= 4 over create/delete/import on A,B,C,MAIN", tried))
+    (false, format!("{} sequences of length <= {} over create/delete/import on A,B,C,MAIN", tried, max_len))
 }
 
 pub fn witnesses() -> Vec<crate::W> {
